@@ -92,6 +92,11 @@ class DpoolGen:
                         ops += ["malloc 1", "destroy"]
                         out.append(ops)
         out.append(["new_default size=8", "malloc 3", "calloc 1 4", "malloc 2", "free idx=1", "pool_reset", "malloc 7", "destroy"])
+        if focus in ("reject", "all"):
+            # M9: size + sizeof(PageInfo) must not wrap (SIZE_MAX-8 rejected; SIZE_MAX-16, SIZE_MAX-17 and 2^63
+            # pass the check and are refused by the harness allocator as requests above 2^40 bytes)
+            for sz in (SIZE_MAX - 8, SIZE_MAX - 15, SIZE_MAX - 16, SIZE_MAX - 17, 2**63, SIZE_MAX):
+                out.append([f"new size={sz} fixed=0 packed=1 ab=1 exp=2", "malloc 1", "destroy"])
         if focus in ("all", "fault"):
             out.append(["new size=4 fixed=0 packed=1 ab=1 exp=1 fail=1", "destroy"])
             out.append(["new size=4 fixed=0 packed=1 ab=1 exp=1 fail=2", "destroy"])
@@ -109,6 +114,11 @@ class DpoolGen:
                 fixed = 0
             sim = Sim(N, fixed, packed, ab, exp)
             ops = [f"new size={N} fixed={fixed} packed={packed} ab={ab} exp={exp}"]
+            if focus == "all" and rng.random() < 0.1:
+                ops = [f"new_default size={N}"]      # cc_dynamic_pool_new: the C library triple (fixed, packed)
+                sim = Sim(N, 1, 1, 1, "1")
+            if focus == "reject" and rng.random() < 0.05:
+                ops = [f"new size={rng.choice([SIZE_MAX - 8, SIZE_MAX - 16, SIZE_MAX - 17, 2**63])} fixed={fixed} packed={packed} ab={ab} exp={exp}"]
             length = rng.randint(1, 45)
             p_free = rng.choice([0.1, 0.2, 0.35])
             if focus == "growth":
